@@ -8,21 +8,26 @@ PROP = dict(
                        "rejected_seed_no_request (a seed at the working depth that is out of scope by the implementation's own strings ends Failed/Completed, childless, without request)"]),
         # the archiver's side: the REAL archiver stage + WARC/HTTP client against a scripted origin that answers 3xx to
         # out-of-scope URLs; every request that ARRIVES at the origin is judged; one process per WARC writing mode
-        dict(driver="scopearch", binary="zscope", noshrink=True, env={"ZV_SCOPEARCH_ASYNC": "0"}, quick=22, thorough=110, shard=60,
+        dict(driver="scopearch", binary="zscope", noshrink=True, env={"ZV_SCOPEARCH_ASYNC": "0"}, quick=26, thorough=130, shard=60,
              monitors=["origin_request_in_scope (every request arriving at the origin: in_scope under the operator's lists)",
                        "origin_request_shape_ok"]),
-        dict(driver="scopearch", binary="zscope", noshrink=True, env={"ZV_SCOPEARCH_ASYNC": "1"}, quick=22, thorough=110, shard=60,
+        dict(driver="scopearch", binary="zscope", noshrink=True, env={"ZV_SCOPEARCH_ASYNC": "1"}, quick=26, thorough=130, shard=60,
              monitors=["origin_request_in_scope (every request arriving at the origin: in_scope under the operator's lists)",
                        "origin_request_shape_ok"]),
+        # the start-up: the REAL config.GenerateCrawlConfig with --exclusion-file given as local paths and as http URLs on a scripted
+        # in-process server whose one answer succeeds or fails; when the crawl starts the real preprocess() runs on probe URLs
+        dict(driver="scopecfg", binary="zscope", quick=60, thorough=600, shard=30,
+             monitors=["started_all_named_files_in_force (a crawl that starts has read every --exclusion-file the operator named and every line of every one is among the effective expressions)",
+                       "no_request_for_excluded_probe (no request for a URL that a line of ANY named exclusion file matches; a crawl that does not start requests nothing)"]),
     ],
     partial="The URL parsers (net/url, ada, x/net/idna), Go's regexp and http.NewRequest are oracles: per node the model receives ada's protocol/hostname and "
             "the Host / String() / regex answers the code reads, and decides from them; the normaliser itself is C09. The model follows the code as fixed by 02226a3 (fixes/C05-scope-host-before-string); the code before it is kept as passes_orig with refutation witnesses. The preprocess()-level theorem is lifted to "
-            "every execution of the pipeline LTS of C01 (Pipe/PipeScope.v: everything the archiver is about to fetch was accepted).",
+            "every execution of the pipeline LTS of C01 (Pipe/PipeScope.v: everything the archiver is about to fetch was accepted). The one read of an exclusion file at start-up (file system, network) is an oracle too (FOk content | FFail); domainscrawl.Match is an oracle answer per URL (its domain rule is transcribed for the witnesses).",
     assumptions=["node ids are unique (Go: pointer identity)",
                  "ada's protocol/hostname of a reference equal those of its own href re-parsed (the driver reads them from the href)"],
     level_text="Theorems for all item trees with unique ids x all operator configurations x all oracle answers: a request is attached only to nodes whose URL passed "
                "NormalizeURL's scheme/host tests and the include/exclude blocks (defaults appended), wherever the node sits; a rejected seed gets no request; "
                "filter algebra (substring test exact, defaults always present, include required, exclusion wins, the lines of ALL --exclusion-file files are in force, GenerateCrawlConfig keeps the operator's entries as typed: the string filters are case-sensitive, the last line of an exclusion file counts with or without a final newline / with CRLF). Model tied to the real preprocess() + GenerateCrawlConfig() "
-               "by a differential check on generated trees and URL texts on every run; exclusion files are written byte for byte in six styles (LF, no final newline, CRLF, CRLF without final newline, blank line in between, empty last line) and the model reads the CONTENT (read_lines = bufio.ScanLines); a seed at the working depth arrives fresh or with URL.Parse() already called, as the three seed sources deliver it; every request is judged against the OPERATOR's lists (gen_cfg of the input, never what GenerateCrawlConfig returned), filter strings with upper-case letters and planted URLs that contain a filter string as typed / with other letter case are part of the generator; the exclusion regexes are spread over 0-3 real files and the effective compiled list is compared with the model's concatenation, the regex answers given to model and monitors come from the driver's own compilation of every line of every file. Long URLs (2-6 KB, the matching part at the end) are planted when a case has exclusion expressions. A second driver sends pre-processed items through the REAL archiver (sync and async WARC writing) to a scripted origin answering 3xx to out-of-scope URLs and judges every request that arrives at the origin with the same predicates.",
+               "by a differential check on generated trees and URL texts on every run; exclusion files are written byte for byte in six styles (LF, no final newline, CRLF, CRLF without final newline, blank line in between, empty last line) and the model reads the CONTENT (read_lines = bufio.ScanLines); a seed at the working depth arrives fresh or with URL.Parse() already called, as the three seed sources deliver it; every request is judged against the OPERATOR's lists (gen_cfg of the input, never what GenerateCrawlConfig returned), filter strings with upper-case letters and planted URLs that contain a filter string as typed / with other letter case are part of the generator; the exclusion regexes are spread over 0-3 real files and the effective compiled list is compared with the model's concatenation, the regex answers given to model and monitors come from the driver's own compilation of every line of every file. Long URLs (2-6 KB, the matching part at the end) are planted when a case has exclusion expressions. A second driver sends pre-processed items through the REAL archiver (sync and async WARC writing) to a scripted origin answering 3xx to out-of-scope URLs and judges every request that arrives at the origin with the same predicates. --domains-crawl (its own matcher, a hop-count option) is a configuration dimension of both drivers - domain, URL and expression entries next to include filters, planted URLs on crawled domains outside the include set - and a theorem says it never widens the include filter (filter and tree level, for every answer of the matcher). A third driver gives --exclusion-file arguments (local paths and http URLs on a scripted in-process server whose one answer succeeds or fails: status, refused, reset, cut short, time-out, redirection loop, missing file, line above the scanner's limit, line the regexp compiler refuses) to the REAL GenerateCrawlConfig and, when the crawl starts, runs the real preprocess() on one probe URL per expression of every named file: a crawl that starts has every line of every named file in force (theorems over all file lists and all read outcomes), an unreadable file refuses the start.",
     technique="Coq model of the include/exclude/shape tests refining the pre-processing oracle of the shared stage model; differential check against the real preprocess()",
 )
